@@ -39,6 +39,9 @@ TRUSTED = [
     "the harness observes the real server through its public attributes (`clients`, `fd_to_conn`, `listener`), a "
     "recording wrapper around the pool's poll object, /proc/self/fd, service hooks, and a class-level wrapper around "
     "`Connection.serve` that counts consumed frames (installed at run time for the duration of a case, never in /repo)",
+    "the server's listener is wrapped (servers.FaultyListener, for C16's injected accept() failures): its accept() is one "
+    "poll(2) on the real listener plus a wake-up pipe of the wrapper's own, with the socket's own timeout - it blocks and is "
+    "woken exactly when socket.accept() is (a connection, shutdown(), not a bare close()); trusted to be equivalent",
 ]
 ASSUMPTIONS = [
     "a pool has at least one worker thread (`nbThreads >= 1`)",
